@@ -70,7 +70,7 @@ let float_share (len : z) (actual : z) (avail : z) : z =
   z_of_int (int_of_float r)
 
 let table : (string * (sexp -> sexp)) list = [
-  ("C12", run_C12X);
+  ("C12", run_C12XN);
   ("C10", run_C10IO);
   ("C07", run_C07);
   ("C08", run_C08);
